@@ -1,22 +1,129 @@
 import Huginn.Props.C01
+import Huginn.Props.C08FlowBridge
+import Huginn.Lemmas.TlsReader
+import Huginn.Props.C07Cap
 /-
 C01 / C07, the excluded point of the no-poisoning and isolation theorems: they are stated per flow key and
 require the probe connection's key to be unused by the history (`fresh_probe`: `∀ p ∈ hist, conn p ≠ c`).
 The statement has no such condition ("after any such input the same analyzer instance still analyses a
 following well-formed input exactly as a fresh instance would"; "no connection can disable analysis of the
 connections that follow it"). At the excluded point — a NEW connection on a 4-tuple whose previous connection
-left an unfinished flow behind — the flow tables, keyed by the 4-tuple alone and blind to SYN, splice the old
-leftovers and the new bytes together: the new connection is reported with a fingerprint that is not its own
-(TLS) or not at all (HTTP). Open finding `KF.C01.reusedTupleUnfinishedFlow` (known_findings.json; real-code
-witness: op `C01.reuse`). Here: the witness on the model.
+left an unfinished flow behind — flow tables keyed by the 4-tuple alone and blind to SYN splice the old
+leftovers and the new bytes together.
+
+Both repaired (`fix: a SYN drops the stale TLS reassembly state of its 4-tuple`, `fix: a SYN with a new sequence
+number drops the stale HTTP flow of its 4-tuple`); `tlsProg` / `httpProg` model the reset. `tls_syn_resets` and
+`http_syn_resets` / `http_reused_tuple_as_fresh` prove, for EVERY earlier history on the 4-tuple, that a connection
+opened by its SYN is reported as by a fresh analyzer. `reset_is_needed` keeps the witness of what `tlsBody` alone
+(the code before the repair) did. Real-code witness: op `C01.reuse`.
 -/
 namespace Huginn.Props.C01
-open Huginn.Flow Huginn.FlowProgs Huginn.Props.C07
+open Huginn.Flow Huginn.FlowProgs Huginn.Props.C07 Huginn.Tls Huginn.Lemmas.TlsReader Huginn.Props.C08Bridge
 
-private def toyParse (b : Bytes) : AddRes Bytes := .sig b
-private def toyIsTls (p : Bytes) : Bool := p.take 1 == [0x16]
+/-- **A SYN makes the 4-tuple fresh (TLS).** For every parser, every table `f` (whatever earlier connections —
+on this 4-tuple or others — left in it), every key `k`: after the SYN of a new connection on `k` (with or
+without Fast-Open data `p0`), the reports for the connection's segments `p0 :: segs` are exactly those of a
+table that never saw `k` — they do not depend on `f` at all. -/
+theorem tls_syn_resets {κ σ : Type} [DecidableEq κ] (parse : Huginn.Tls.Bytes → PR σ) (f : Flows κ σ)
+    (hcap : 1 ≤ f.cap) (k : κ) (p0 : Huginn.Tls.Bytes) (segs : List Huginn.Tls.Bytes) :
+    runPacketsS parse f ((k, true, p0) :: segs.map (fun p => (k, false, p))) =
+      flowRun parse none (p0 :: segs) := by
+  have hns : ∀ x ∈ segs.map (fun p => (k, false, p)), x.2.1 = false := by
+    intro x hx; obtain ⟨_, _, rfl⟩ := List.mem_map.1 hx; rfl
+  have hrun := runPackets_single parse k (p0 :: segs) (f.remove k) (by simpa [Flows.remove] using hcap)
+  simp only [runPacketsS, processTcpS, if_true]
+  rw [runPacketsS_noSyn parse _ _ hns]
+  simp only [List.map_cons, runPackets, List.map_map, Function.comp_def] at hrun ⊢
+  rw [hrun]
+  have hg : (f.remove k).get? k = none := get?_remove f k
+  rw [hg]
+
+/-- … in particular the same reports as a fresh table of any capacity ≥ 1. -/
+theorem tls_syn_as_fresh {κ σ : Type} [DecidableEq κ] (parse : Huginn.Tls.Bytes → PR σ) (f : Flows κ σ)
+    (hcap : 1 ≤ f.cap) (cap' : Nat) (hcap' : 1 ≤ cap') (k : κ) (p0 : Huginn.Tls.Bytes) (segs : List Huginn.Tls.Bytes) :
+    runPacketsS parse f ((k, true, p0) :: segs.map (fun p => (k, false, p))) =
+      runPacketsS parse ({ cap := cap' } : Flows κ σ) ((k, true, p0) :: segs.map (fun p => (k, false, p))) := by
+  rw [tls_syn_resets parse f hcap, tls_syn_resets parse _ hcap']
+
+/-! ### HTTP -/
+
+/-- **A SYN with a new sequence number makes the 4-tuple fresh (HTTP), one packet.** On a table that holds only
+flows of this 4-tuple (whatever an earlier connection left there), a SYN without ACK whose sequence number is not
+the stored flow's is processed exactly as on the empty table: same table afterwards, same processor state, same
+output — so everything that follows is analysed as by a fresh analyzer. -/
+theorem http_syn_resets {γ Q P : Type} (H : HttpParams γ Q P) (s : Seg) (hs : s.syn = true) (ha : s.ack = false)
+    (now : Nat) (m : TtlMap FlowKey TcpFlow) (g : γ)
+    (hkeys : ∀ e ∈ m.es, e.key = ⟨s.src, s.dst⟩ ∨ e.key = ⟨s.dst, s.src⟩)
+    (hisn : (m.get now ⟨s.src, s.dst⟩).map (·.clientIsn) ≠ some s.seq) :
+    (httpProg H s).run now m g = (httpProg H s).run now { cap := m.cap } g := by
+  have hrm : (m.remove ⟨s.src, s.dst⟩).remove ⟨s.dst, s.src⟩ = { cap := m.cap } := by
+    unfold TtlMap.remove
+    simp only [List.filter_filter]
+    congr 1
+    apply List.filter_eq_nil_iff.2
+    intro e he
+    rcases hkeys e he with h | h <;> simp [h]
+  have hc : ((Option.map (fun x : TcpFlow => x.clientIsn) (m.get now ⟨s.src, s.dst⟩)) == some s.seq) = false := by
+    simpa using hisn
+  have he : ({ cap := m.cap } : TtlMap FlowKey TcpFlow).get now ⟨s.src, s.dst⟩ = none := rfl
+  unfold httpProg
+  simp only [hs, ha, Bool.not_false, Bool.and_self, if_true, Prog.run, hc, Bool.false_eq_true, if_false, hrm, he,
+    Option.map_none]
+  rfl
+
+/-- Report results do not depend on the processor state the run starts in (for parsers with `ResultIndep`). -/
+theorem http_runOuts_state_indep {γ Q P : Type} (H : HttpParams γ Q P) (hri : ResultIndep H)
+    (tr : List Seg) (m : TtlMap FlowKey TcpFlow) (g g' : γ) :
+    (httpAnalyzer H).runOuts (m, g) tr = (httpAnalyzer H).runOuts (m, g') tr := by
+  have h1 := (sim_trace (httpAnalyzer H) (httpAnalyzer (H.pure g)) (fun _ => rfl)
+    (fun p => httpProg_sim H hri g p) tr m g g).1
+  have h2 := (sim_trace (httpAnalyzer H) (httpAnalyzer (H.pure g)) (fun _ => rfl)
+    (fun p => httpProg_sim H hri g p) tr m g' g).1
+  rw [h1, h2]
+
+/-- **Reused 4-tuple, whole traces (HTTP).** Take ANY earlier history `old` on the two directed keys of a
+4-tuple (finished or not, well-formed or not), on a fresh analyzer of capacity ≥ 2; then a new connection: its
+SYN `s` (no ACK, a sequence number other than the stored flow's) and anything after it. The reports for
+`s :: rest` are exactly those of a fresh analyzer. -/
+theorem http_reused_tuple_as_fresh {γ Q P : Type} (H : HttpParams γ Q P) (hri : ResultIndep H)
+    (old : List Seg) (s : Seg) (rest : List Seg) (cap : Nat) (hcap : 2 ≤ cap) (g : γ)
+    (hs : s.syn = true) (ha : s.ack = false)
+    (hold : ∀ x ∈ old, flowKeyOf x = ⟨s.src, s.dst⟩ ∨ flowKeyOf x = ⟨s.dst, s.src⟩)
+    (hisn : (((httpAnalyzer H).finalState ({ cap := cap }, g) old).1.get s.time ⟨s.src, s.dst⟩).map (·.clientIsn)
+      ≠ some s.seq) :
+    (httpAnalyzer H).runOuts ((httpAnalyzer H).finalState ({ cap := cap }, g) old) (s :: rest) =
+      (httpAnalyzer H).runOuts ({ cap := cap }, g) (s :: rest) := by
+  -- the table after `old` holds only the two keys, and keeps its capacity
+  have hinv : ∀ (tr : List Seg) (m : TtlMap FlowKey TcpFlow) (g : γ),
+      (∀ x ∈ tr, flowKeyOf x = ⟨s.src, s.dst⟩ ∨ flowKeyOf x = ⟨s.dst, s.src⟩) →
+      KeysIn [⟨s.src, s.dst⟩, ⟨s.dst, s.src⟩] m → 2 ≤ m.cap →
+      KeysIn [⟨s.src, s.dst⟩, ⟨s.dst, s.src⟩] ((httpAnalyzer H).finalState (m, g) tr).1 ∧
+        ((httpAnalyzer H).finalState (m, g) tr).1.cap = m.cap := by
+    intro tr
+    induction tr with
+    | nil => intro m g _ h _; exact ⟨h, rfl⟩
+    | cons x tr ih =>
+      intro m g hx h hc
+      have hins : InsertsIn [⟨s.src, s.dst⟩, ⟨s.dst, s.src⟩] (httpProg H x) :=
+        http_insertsIn H x _ (fun _ => by
+          show flowKeyOf x ∈ _
+          rcases hx x (by simp) with h | h <;> simp [h])
+      obtain ⟨_, b, c⟩ := progNoEvict_of_keysIn (httpProg H x) hins x.time m g h (by simpa using hc)
+      obtain ⟨i1, i2⟩ := ih _ ((httpProg H x).run x.time m g).2.1 (fun y hy => hx y (by simp [hy])) b (by rw [c]; exact hc)
+      exact ⟨i1, i2.trans c⟩
+  obtain ⟨hk, hc⟩ := hinv old { cap := cap } g hold (keysIn_empty _ cap) hcap
+  have hstep := http_syn_resets H s hs ha s.time ((httpAnalyzer H).finalState ({ cap := cap }, g) old).1
+    ((httpAnalyzer H).finalState ({ cap := cap }, g) old).2
+    (fun e he => by simpa using hk.2 e he) hisn
+  rw [hc] at hstep
+  rw [http_runOuts_state_indep H hri (s :: rest) { cap := cap } g ((httpAnalyzer H).finalState ({ cap := cap }, g) old).2]
+  simp only [Analyzer.runOuts, Analyzer.step, httpAnalyzer] at hstep ⊢
+  rw [hstep]
+
+private def toyParse (b : FlowProgs.Bytes) : AddRes FlowProgs.Bytes := .sig b
+private def toyIsTls (p : FlowProgs.Bytes) : Bool := p.take 1 == [0x16]
 private def kEp : Ep × Ep := (⟨1, 40000⟩, ⟨2, 443⟩)
-private def mkSeg (syn : Bool) (payload : Bytes) (t : Nat) : Seg :=
+private def mkSeg (syn : Bool) (payload : FlowProgs.Bytes) (t : Nat) : Seg :=
   ⟨kEp.1, kEp.2, 0, syn, !syn, false, false, payload, t, t, none⟩
 
 /-- old connection: SYN, then 7 of the 9 bytes of a record; new connection on the same 4-tuple: SYN, then a
@@ -24,13 +131,38 @@ whole 9-byte record -/
 private def oldConn : List Seg := [mkSeg true [] 0, mkSeg false [0x16, 3, 1, 0, 4, 0xa1, 0xa2] 1]
 private def newConn : List Seg := [mkSeg true [] 2, mkSeg false [0x16, 3, 1, 0, 4, 0xb1, 0xb2, 0xb3, 0xb4] 3]
 
-/-- Witness: after the unfinished old connection, the new one is reported with bytes of BOTH connections;
-a fresh analyzer reports the new connection's own record. -/
-theorem kf_reusedTuple_witness :
+private def toyH : HttpParams Unit Nat Nat :=
+  { parseReq := fun g b => (g, if b.length ≥ 4 then some b.length else none), parseResp := fun g _ => (g, none) }
+private def hSeg (syn : Bool) (seq : Nat) (payload : FlowProgs.Bytes) (t : Nat) : Seg :=
+  ⟨kEp.1, kEp.2, seq, syn, !syn, false, false, payload, t, t, none⟩
+
+/-- Non-vacuity of `http_reused_tuple_as_fresh`: an old connection (ISN 100) that left two bytes behind, then a
+new SYN with ISN 7000 — the hypotheses hold, and the new connection's four bytes are reported. -/
+example :
+    let old := [hSeg true 100 [] 0, hSeg false 101 [71, 69] 1]
+    let s := hSeg true 7000 [] 2
+    (∀ x ∈ old, flowKeyOf x = ⟨s.src, s.dst⟩ ∨ flowKeyOf x = ⟨s.dst, s.src⟩) ∧
+    ((((httpAnalyzer toyH).finalState ({ cap := 4 }, ()) old).1.get s.time ⟨s.src, s.dst⟩).map (·.clientIsn)
+      ≠ some s.seq) ∧
+    ((httpAnalyzer toyH).runOuts ((httpAnalyzer toyH).finalState ({ cap := 4 }, ()) old)
+        [s, hSeg false 7001 [71, 69, 84, 32] 3]).map (·.2.req) = [none, some 4] := by
+  decide +kernel
+
+/-- The cache-program analyzer on the concrete history: with the reset the new connection is reported with its
+own record, after the unfinished old connection as on a fresh analyzer. -/
+theorem reusedTuple_tls_now_fresh :
     (((tlsAnalyzer (tlsParamsOf toyParse toyIsTls)).runOuts ({ cap := 8 }, ()) (oldConn ++ newConn)).map (·.2)).drop 2 =
-      [none, some [0x16, 3, 1, 0, 4, 0xa1, 0xa2, 0x16, 3]] ∧
+      ((tlsAnalyzer (tlsParamsOf toyParse toyIsTls)).runOuts ({ cap := 8 }, ()) newConn).map (·.2) ∧
     ((tlsAnalyzer (tlsParamsOf toyParse toyIsTls)).runOuts ({ cap := 8 }, ()) newConn).map (·.2) =
       [none, some [0x16, 3, 1, 0, 4, 0xb1, 0xb2, 0xb3, 0xb4]] := by
+  decide +kernel
+
+/-- What the code before the repair did (`tlsBody` alone, no reset): after the unfinished old connection the new
+one is reported with bytes of BOTH connections. -/
+theorem reset_is_needed :
+    let noReset : Analyzer FlowKey Reader Unit Unit Seg (Option FlowProgs.Bytes) := ⟨tlsBody (tlsParamsOf toyParse toyIsTls), Seg.time⟩
+    ((noReset.runOuts ({ cap := 8 }, ()) (oldConn ++ newConn)).map (·.2)).drop 2 =
+      [none, some [0x16, 3, 1, 0, 4, 0xa1, 0xa2, 0x16, 3]] := by
   decide +kernel
 
 end Huginn.Props.C01
